@@ -9,6 +9,7 @@ import SoyVerif.Ops.Ast
 import SoyVerif.Ops.Parser
 import SoyVerif.Ops.Check
 import SoyVerif.Ops.Writer
+import SoyVerif.Ops.Escape
 
 open SoyVerif SoyVerif.Ops
 
@@ -17,7 +18,8 @@ def allOps : List Op :=
   Ops.Ast.ops ++
   Ops.Parser.ops ++
   Ops.Check.ops ++
-  Ops.Writer.ops
+  Ops.Writer.ops ++
+  Ops.Escape.ops
 
 def handle (op : String) (f : List String) : String :=
   match allOps.find? (·.1 == op) with
